@@ -44,13 +44,16 @@ type Path struct {
 }
 
 type Case struct {
-	Relation string      `json:"relation"` // offset scale indirection operator
-	ViewBox  [4]ops.F32  `json:"viewbox"`
-	Palette  ops.Palette `json:"palette"`
-	Paths    []Path      `json:"paths"`
-	W, H     int
-	OX, OY   int    `json:"-"`
-	Off      [2]int `json:"offset"`
+	Relation string `json:"relation"` // offset scale indirection operator
+	// Literal: the compared rasteriser is made with a struct literal (&vec.Rasterizer{Dst: img}),
+	// as the repository's own tests and example do, not with NewRasterizer.
+	Literal bool        `json:"literal,omitempty"`
+	ViewBox [4]ops.F32  `json:"viewbox"`
+	Palette ops.Palette `json:"palette"`
+	Paths   []Path      `json:"paths"`
+	W, H    int
+	OX, OY  int    `json:"-"`
+	Off     [2]int `json:"offset"`
 	// Origin: Bounds().Min of the larger image (sub-image windows and images
 	// with a negative origin are ordinary draw.Images).
 	Origin [2]int `json:"image_origin,omitempty"`
@@ -149,6 +152,13 @@ func scaleOps(list []ops.Op, k int, isBlock bool) []ops.Op {
 	return out
 }
 
+func newRast(c Case, img draw.Image) *vec.Rasterizer {
+	if c.Literal {
+		return &vec.Rasterizer{Dst: img}
+	}
+	return vec.NewRasterizer(img)
+}
+
 func checkPixels(c Case) error {
 	vb := [4]float32{float32(c.ViewBox[0]), float32(c.ViewBox[1]), float32(c.ViewBox[2]), float32(c.ViewBox[3])}
 	pal := [64]color.RGBA(c.Palette)
@@ -168,7 +178,7 @@ func checkPixels(c Case) error {
 		big := image.Rect(0, 0, c.W+c.Off[0]+7, c.H+c.Off[1]+5).Add(image.Pt(c.Origin[0], c.Origin[1]))
 		target := own.Add(image.Pt(c.Off[0]+c.Origin[0], c.Off[1]+c.Origin[1]))
 		img := newImage(c.Alpha, big, prefill)
-		z := vec.NewRasterizer(img)
+		z := newRast(c, img)
 		if c.Sheet {
 			// an earlier tile with the same Renderer and rasteriser, then the sheet is wiped again
 			var r render.Renderer
@@ -217,7 +227,7 @@ func checkPixels(c Case) error {
 			sprog = append(sprog, scaleOps(p.Ops, c.K, false)...)
 		}
 		img := newImage(c.Alpha, own, prefill)
-		z := vec.NewRasterizer(img)
+		z := newRast(c, img)
 		z.DrawOp = op
 		renderTo(z, own, svb, pal, sprog)
 		if !bytes.Equal(pix(img), pix(base)) {
@@ -245,7 +255,7 @@ func checkPixels(c Case) error {
 			direct = append(direct, p.Ops...)
 		}
 		img := newImage(c.Alpha, own, prefill)
-		z := vec.NewRasterizer(img)
+		z := newRast(c, img)
 		z.DrawOp = op
 		renderTo(z, own, vb, ivg.DefaultPalette, direct)
 		if !bytes.Equal(pix(img), pix(base)) {
@@ -436,6 +446,7 @@ func genCase(t *rapid.T) Case {
 		c.K = 3
 	}
 	c.Alpha = rapid.IntRange(0, 3).Draw(t, "alpha") == 0
+	c.Literal = rapid.IntRange(0, 2).Draw(t, "literal") == 0
 	c.Src = rapid.Bool().Draw(t, "src")
 	if c.Relation == "operator" {
 		c.Src = rapid.IntRange(0, 3).Draw(t, "srcop") != 0
@@ -460,6 +471,9 @@ func TestPixelRelations(t *testing.T) {
 		}
 		if c.Relation == "offset" && (c.Origin[0] != 0 || c.Origin[1] != 0) {
 			labels = append(labels, "image-with-non-zero-origin")
+		}
+		if c.Literal {
+			labels = append(labels, "rasteriser-made-with-a-struct-literal")
 		}
 		if c.Off == [2]int{0, 0} {
 			labels = append(labels, "rectangle-at-the-corner-of-the-larger-image")
@@ -487,7 +501,7 @@ func TestPixelRelations(t *testing.T) {
 		// non-trivial: something was actually drawn
 		own := image.Rect(0, 0, c.W, c.H)
 		img := newImage(c.Alpha, own, prefill)
-		z := vec.NewRasterizer(img)
+		z := newRast(c, img)
 		renderTo(z, own, [4]float32{float32(c.ViewBox[0]), float32(c.ViewBox[1]), float32(c.ViewBox[2]), float32(c.ViewBox[3])}, [64]color.RGBA(c.Palette), program(c))
 		blank := newImage(c.Alpha, own, prefill)
 		drawn := !bytes.Equal(pix(img), pix(blank))
